@@ -72,7 +72,7 @@ def main(tier):
     # seeded scenes of 2..6 separated rectangles on a larger lattice (even corners 2..30, odd endpoints): offset arrangements in which
     # the cheapest route threads between rectangles while routes of equal bend count go round the outside -- where the order in which
     # the search relaxes and re-relaxes an edge matters
-    for _ in range(2500 if quick else 40000):
+    for _ in range(2500 if quick else 10000):
         boxes = []
         for _ in range(rnd.randint(2, 6)):
             for _try in range(20):
@@ -90,7 +90,7 @@ def main(tier):
     recs = make_records(out)
     rf = os.path.join(d, 'orth_recs.json')
     json.dump({'recs': recs}, open(rf, 'w'))
-    r = V.tlc(OP, os.path.join(V.SPEC, 'avoid', 'OrthoPath.cfg'), env={'ORTHRECS': rf}, timeout=3000, cont=True, mem='24g')
+    r = V.tlc(OP, os.path.join(V.SPEC, 'avoid', 'OrthoPath.cfg'), env={'ORTHRECS': rf}, timeout=3000 if quick else 6000, cont=True, mem='24g')
     ev.add_tlc('OrthoPath: route validity + refutation search over %d (scene, connector) records' % len(recs), r)
     seen = set()
     for inv, st in V.violating_states(r):
